@@ -56,7 +56,9 @@ structure FmtData where
   subject : Option Bytes    -- formatting_data->subject_name (NULL = none)
   msg : Bytes               -- what vsnprintf(format, args) expands to
   ts : Bytes                -- what strftime produces for formatting_data->date_format
-  tid : Bytes               -- tl_logging_thread_id.repr
+  tid : Bytes               -- tl_logging_thread_id.repr: the id text of the CALLING thread. The cache is thread-local
+                            -- (AWS_THREAD_LOCAL): filled on a thread's first line from aws_thread_current_thread_id, never
+                            -- seen by another thread; so this is a per-thread parameter of the model
 deriving Repr
 
 /-- one `if (current_index < fake_total_length) { n = snprintf(buf + idx, fake - idx, …); idx = clamp }` block -/
@@ -265,7 +267,10 @@ outside the lock; what keeps lines whole is that no other thread can touch the b
 file, so the theorem "the file holds exactly the formatted lines" is a statement about buffer ownership. -/
 namespace Na
 
-abbrev Line := Nat × Nat     -- (thread, sequence number of the call in that thread)
+/-- (thread, sequence number of the call in that thread).  The first component also stands for the thread-id text in
+the line's prefix: the formatter takes it from a thread-local cache, so a line formatted by thread `t` carries `t`'s
+own id and nobody else's. -/
+abbrev Line := Nat × Nat
 
 inductive Pc where
   | idle
@@ -282,10 +287,11 @@ structure Sys where
   file : List (Option Line)    -- what reached the FILE, in order
   -- ghost
   logged : List Line           -- the line each completed fwrite was meant to write
+  writers : List Nat           -- the thread that performed each fwrite
   returned : List Line         -- calls that have returned
 
 def Sys.init : Sys :=
-  { mutex := none, pcs := fun _ => .idle, count := fun _ => 0, bufs := fun _ => none, file := [], logged := [], returned := [] }
+  { mutex := none, pcs := fun _ => .idle, count := fun _ => 0, bufs := fun _ => none, file := [], logged := [], writers := [], returned := [] }
 
 def setPc (s : Sys) (t : Nat) (pc : Pc) : Sys := { s with pcs := fun i => if i = t then pc else s.pcs i }
 
@@ -306,7 +312,7 @@ def step (s : Sys) : Act → Option Sys
     match s.pcs t with
     | .idle => none
     | .lock l => if s.mutex = none then some { (setPc s t (.write l)) with mutex := some t } else none
-    | .write l => some { (setPc s t (.unlock l)) with file := s.file ++ [s.bufs t], logged := s.logged ++ [l] }
+    | .write l => some { (setPc s t (.unlock l)) with file := s.file ++ [s.bufs t], logged := s.logged ++ [l], writers := s.writers ++ [t] }
     | .unlock l => some { (setPc s t .idle) with mutex := none, returned := s.returned ++ [l] }
 
 inductive Reachable : Sys → Prop where
@@ -323,7 +329,9 @@ synchronisation operation or one access to the shared/observable state.  Ghost f
 the property speaks about. -/
 namespace Bg
 
-abbrev Line := Nat × Nat     -- (sender, sequence number within that sender)
+/-- (sender, sequence number within that sender).  A line is formatted on the sender's thread before `send`, with the
+thread-id text of that thread (thread-local cache): the first component is also "whose id the line carries". -/
+abbrev Line := Nat × Nat
 
 inductive Owner where
   | sender (t : Nat)
